@@ -135,6 +135,8 @@ inductive Act
   | mode (src : Str) (chan : Str) (changes : List MChange)
   | topic (src : Str) (chan : Str) (text : Str)
   | chghost (nick ident host : Str)
+  /-- PRIVMSG from a user to a channel or to the bot -/
+  | say (nick target text : Str)
   | names (chan : Str)
   | who (chan : Str)
   /-- the reply to a MODE query (the bot sends one on joining; the reply may come after it has left again) -/
@@ -484,6 +486,16 @@ def Srv.step (s : Srv) : Act → Srv × List Ev
       else
         -- nobody tells the bot: the user is out of sight, or the capability was not negotiated
         ({ s with users := aset s.users (lower n) { u with ident := i, host := h }, told := sdel s.told (lower n) }, [])
+  | .say n target text =>
+    match s.user n with
+    | none => (s, [])
+    | some u =>
+      if !validText text || text.isEmpty then (s, [])
+      else if lower target = s.botKey || (s.chan target).any s.botIn then
+        -- the bot receives it: whoever the sender is, his prefix shows his hostmask
+        ({ s with told := sadd s.told (lower n) },
+         [emit u.mask "PRIVMSG" [if lower target = s.botKey then s.bot else ((s.chan target).map (·.name)).getD target, text]])
+      else (s, [])
   | .names c =>
     match s.chan c with
     | some sc =>
